@@ -56,7 +56,15 @@ func typeProbes[T signal.SignalTypes](name string) func(ch, length int) []Probe 
 		if ch > 1 {
 			rag.AppendSample(T(3))
 		}
+		// a non-empty destination with room for exactly one more frame
+		tight0 := signal.Alloc[T](signal.Allocator{Channels: ch, Length: length, Capacity: length + 1})
+		tight := signal.Alloc[T](signal.Allocator{Channels: ch, Length: length, Capacity: length + 1})
+		oneFrame := signal.Alloc[T](signal.Allocator{Channels: ch, Length: 1, Capacity: 1})
 		ps := []Probe{
+			{Name: "Append-of-one-frame-into-the-last-free-frame[" + name + "]", Run: func() {
+				*tight = *tight0
+				tight.Append(oneFrame)
+			}},
 			{Name: "pool-cycle-through-copies-of-an-allocator-value[" + name + "]", Run: func() {
 				g1 := copies[0].Get()
 				g2 := copies[1].Get()
